@@ -34,21 +34,26 @@ struct Source {
     debug: bool,
     optimize: bool,
     tags: &'static [&'static str],
+    /// permission mask the list is parsed with (the serialized data carries it per +js rule)
+    perm: u8,
 }
 
 const SOURCES: &[Source] = &[
-    Source { name: "host-anchors", rules: &["||ads.net^", "||ads.net/ad$script", "@@||ok.net^$image"], debug: false, optimize: true, tags: &[] },
-    Source { name: "regex+cosmetic", rules: &["/ad[0-9]+/", "foo*bar^", "x.com##.ad", "x.com##+js(s1, \"a b\", c)", "##.generic", "x.com##.r:style(top:0)", "x.com#@#.u:style(top:0)"], debug: false, optimize: true, tags: &[] },
-    Source { name: "tagged+debug", rules: &["adv$tag=a", "@@advice$tag=b", "||c.com^$csp=d1", "||r.com^$redirect=a"], debug: true, optimize: false, tags: &["a"] },
-    Source { name: "domains", rules: &["ads$domain=x.com|~y.com", "||t.co.uk^$3p,important", "|https://a.b/|"], debug: false, optimize: false, tags: &[] },
-    Source { name: "cosmetic-procedural", rules: &["x.com##.p:style(color:red)", "x.com#@#.q", "y.com##.r:has-text(ad)", "z.*##.e", "~w.com##.n"], debug: false, optimize: true, tags: &[] },
-    Source { name: "empty", rules: &[], debug: false, optimize: true, tags: &[] },
-    Source { name: "single-plain", rules: &["plain"], debug: true, optimize: true, tags: &[] },
-    Source { name: "hostname-regex", rules: &["||ads.net*bar", "||ads.net^foo|", "||ads.net^"], debug: false, optimize: false, tags: &[] },
-    Source { name: "fused", rules: &["adv", "advert", "advice", "@@adv1", "@@adv2"], debug: true, optimize: true, tags: &[] },
-    Source { name: "generichide+badfilter", rules: &["@@||g.com^$generichide", "bar", "bar$badfilter", "g.com##.own"], debug: false, optimize: true, tags: &[] },
-    Source { name: "scriptlets", rules: &["x.com##+js(s1)", "x.com#@#+js(s1)", "y.com##+js(s2, 'q')", "y.com#@#+js()"], debug: false, optimize: true, tags: &[] },
-    Source { name: "idn+complex", rules: &["||bücher.de^", "bücher.de##.ad > a", "##.c.d", "###i .c"], debug: true, optimize: true, tags: &[] },
+    Source { name: "host-anchors", rules: &["||ads.net^", "||ads.net/ad$script", "@@||ok.net^$image"], debug: false, optimize: true, tags: &[], perm: 0 },
+    Source { name: "regex+cosmetic", rules: &["/ad[0-9]+/", "foo*bar^", "x.com##.ad", "x.com##+js(s1, \"a b\", c)", "##.generic", "x.com##.r:style(top:0)", "x.com#@#.u:style(top:0)"], debug: false, optimize: true, tags: &[], perm: 0 },
+    Source { name: "tagged+debug", rules: &["adv$tag=a", "@@advice$tag=b", "||c.com^$csp=d1", "||r.com^$redirect=a"], debug: true, optimize: false, tags: &["a"], perm: 0 },
+    Source { name: "domains", rules: &["ads$domain=x.com|~y.com", "||t.co.uk^$3p,important", "|https://a.b/|"], debug: false, optimize: false, tags: &[], perm: 0 },
+    Source { name: "cosmetic-procedural", rules: &["x.com##.p:style(color:red)", "x.com#@#.q", "y.com##.r:has-text(ad)", "z.*##.e", "~w.com##.n"], debug: false, optimize: true, tags: &[], perm: 0 },
+    Source { name: "empty", rules: &[], debug: false, optimize: true, tags: &[], perm: 0 },
+    Source { name: "single-plain", rules: &["plain"], debug: true, optimize: true, tags: &[], perm: 0 },
+    Source { name: "hostname-regex", rules: &["||ads.net*bar", "||ads.net^foo|", "||ads.net^"], debug: false, optimize: false, tags: &[], perm: 0 },
+    Source { name: "fused", rules: &["adv", "advert", "advice", "@@adv1", "@@adv2"], debug: true, optimize: true, tags: &[], perm: 0 },
+    Source { name: "generichide+badfilter", rules: &["@@||g.com^$generichide", "bar", "bar$badfilter", "g.com##.own"], debug: false, optimize: true, tags: &[], perm: 0 },
+    Source { name: "scriptlets", rules: &["x.com##+js(s1)", "x.com#@#+js(s1)", "y.com##+js(s2, 'q')", "y.com#@#+js()"], debug: false, optimize: true, tags: &[], perm: 0 },
+    Source { name: "idn+complex", rules: &["||bücher.de^", "bücher.de##.ad > a", "##.c.d", "###i .c"], debug: true, optimize: true, tags: &[], perm: 0 },
+    // a list parsed with a non-default permission: the per-rule permissions live in a field of their
+    // own, next to the bins they describe (the two can be made to disagree)
+    Source { name: "scriptlet-permissions", rules: &["x.com##+js(s1, a)", "x.com##.banner", "x.com#@#+js(s2)", "y.com##+js(s1)", "y.com##+js(s2, b)"], debug: false, optimize: true, tags: &[], perm: 1 },
 ];
 
 fn resources() -> Vec<adblock::resources::Resource> {
@@ -60,7 +65,9 @@ fn resources() -> Vec<adblock::resources::Resource> {
 }
 
 fn source_engine(s: &Source) -> Engine {
-    let mut e = Engine::from_rules_parametrised(s.rules, Default::default(), s.debug, s.optimize);
+    let mut fs = adblock::lists::FilterSet::new(s.debug);
+    fs.add_filters(s.rules, adblock::lists::ParseOptions { permissions: adblock::resources::PermissionMask::from_bits(s.perm), ..Default::default() });
+    let mut e = Engine::from_filter_set(fs, s.optimize);
     vh::net::never_discard(&mut e);
     e.use_tags(s.tags);
     e.use_resources(resources());
@@ -618,7 +625,7 @@ fn record(buffer: usize, f: &Src, res: ShardResult, l: &mut Local) {
 
 fn check(ctx: &Ctx) -> i32 {
     let buffers: Vec<usize> = match ctx.tier {
-        Tier::Quick => vec![0, 1, 2, 5],
+        Tier::Quick => vec![0, 1, 2, 5, 12],
         Tier::Thorough => (0..SOURCES.len()).collect(),
     };
     let pair_buffers: Vec<usize> = if ctx.tier == Tier::Thorough { vec![5, 6, 0] } else { vec![] };
